@@ -71,6 +71,10 @@ type Scenario struct {
 	SyncEvery   int64 // ledger sync poll period, ns (0 off)
 	Epoch0      int64 // wall-clock epoch of simulated time zero, ns since 1970
 	DevLogger   bool  // zap development mode (DPanic panics)
+	ShiftNs     int64 // pair runs: epoch offset of the second run
+	PoorNode    int   // 1+identity whose mempool misses most gossiped transactions (0: none)
+	SupplySlow  int64 // extra tx supply latency in multiples of the base latency
+	PoolHoldsInvalid bool // GetVerified may return transactions the block verification rejects
 
 	MaxEvents int
 	MaxTime   int64
@@ -198,8 +202,8 @@ func baseScenario(t *Tape, family string, nlo, nhi int) *Scenario {
 	sc.TxRate = int(t.Draw(SScen, 4))
 	sc.TxGossipMax = sc.LatBase * 4
 	sc.SyncEvery = int64(sc.TPB) * pick(t, SScen, int64(1), 2, 4)
-	sc.MaxEvents = 40000
-	sc.MaxTime = int64(sc.TPB) * 4000
+	sc.MaxEvents = 20000
+	sc.MaxTime = int64(sc.TPB) * 1500
 	return sc
 }
 
@@ -314,6 +318,118 @@ func SafetyScenario(t *Tape) *Scenario {
 				break
 			}
 		}
+	}
+	return sc
+}
+
+// TimingScenario: honest nodes (optionally <=F silent ones so that view changes
+// happen), mild network, exact timers, several heights, so that primaries take
+// round-trip samples and timers are adjusted.  Used by C14 (pair runs).
+func TimingScenario(t *Tape) *Scenario {
+	sc := baseScenario(t, "pair", 1, 7)
+	if t.Chance(SScen, 1, 2) {
+		chooseFaulty(t, sc, []FaultKind{FSilent}, 2)
+	}
+	sc.Heights = int(t.Range(SScen, 3, 7))
+	sc.GST = int64(sc.TPB) * t.Range(SScen, 0, 6)
+	sc.DropPM = pick(t, SScen, uint64(0), 0, 30, 100)
+	sc.DupPM = pick(t, SScen, uint64(0), 0, 30)
+	sc.Delta = sc.LatBase + sc.LatJitter
+	sc.ClockSkew = t.Chance(SScen, 1, 2)
+	sc.ResetDelay = pick(t, SScen, int64(0), sc.LatBase, int64(sc.TPB)/4)
+	sc.MapOrder = int(t.Draw(SScen, 3))
+	sc.TxMissing = t.Chance(SScen, 1, 3)
+	if t.Chance(SScen, 1, 4) {
+		sc.MaxTPB = sc.TPB * time.Duration(pick(t, SScen, 2, 3, 8, 1))
+	}
+	sc.TSInc = pick(t, SScen, uint64(1_000_000), 1, 1000, 1_000_000_000, 7_000_000)
+	// clock offset of the second run: multiples of the increment, seconds to decades, both signs
+	secs := pick(t, SScen, int64(3600*24*365*30), 1, 3600, -3600*24*365*5, 3600*24*365*60, -3600*24*365*25, 86400*3)
+	sc.ShiftNs = secs * 1_000_000_000 / int64(sc.TSInc) * int64(sc.TSInc)
+	sc.MaxEvents = 20000
+	return sc
+}
+
+// AMEVScenario: safety family with the anti-MEV extension always configured
+// (on from genesis or switching on inside the run).
+func AMEVScenario(t *Tape) *Scenario {
+	sc := SafetyScenario(t)
+	if sc.AMEV < 0 {
+		if t.Chance(SScen, 1, 2) {
+			sc.AMEV = 0
+		} else {
+			sc.AMEV = int64(sc.Start) + 1 + t.Range(SScen, 0, int64(sc.Heights))
+		}
+	}
+	if t.Chance(SScen, 1, 2) {
+		sc.ProcErrPM = pick(t, SScen, uint64(100), 300, 600)
+	}
+	return sc
+}
+
+// TxScenario: biased towards the conjunction C12 names - differing mempools,
+// proposals containing transactions some backups lack, completed blocks that
+// fail verification (so that the last supplied transaction triggers a change
+// view), and a cached proposal of the next view waiting to be replayed inside
+// the same call.  Half of the runs are otherwise calm (honest nodes, reliable
+// network) so that the conjunction is reached often; the other half is the
+// full safety family.
+func TxScenario(t *Tape) *Scenario {
+	var sc *Scenario
+	if t.Chance(SScen, 1, 2) {
+		sc = SafetyScenario(t)
+	} else {
+		sc = baseScenario(t, "safety", 7, 10)
+		sc.PoorNode = 1 + int(t.Draw(SScen, uint64(sc.NIdent)))
+		sc.GST = -1
+		sc.DropPM = pick(t, SScen, uint64(0), 0, 20)
+		sc.DupPM = pick(t, SScen, uint64(0), 20)
+		sc.MapOrder = int(t.Draw(SScen, 3))
+		sc.ResetDelay = pick(t, SScen, int64(0), sc.LatBase)
+		sc.Heights = int(t.Range(SScen, 3, 8))
+	}
+	sc.TxMissing = true
+	sc.TxRate = 1 + int(t.Draw(SScen, 4))
+	sc.MaxTxPerBlock = 1 + int(t.Draw(SScen, 4))
+	sc.InvalidTxPM = pick(t, SScen, uint64(300), 100, 500, 0)
+	sc.PoolHoldsInvalid = true
+	sc.SupplySlow = int64(t.Draw(SScen, 4))
+	return sc
+}
+
+// WatchScenario: safety family where one validator carries the watch-only
+// flag (counted against the fault budget) and observers are frequent; start
+// heights are chosen so that the flagged validator is primary at start or
+// after a reset.
+func WatchScenario(t *Tape) *Scenario {
+	sc := baseScenario(t, "safety", 1, 10)
+	sc.NObs = int(t.Range(SScen, 0, 2))
+	n := sc.NIdent
+	if fOf(n) >= 1 || t.Chance(SScen, 1, 2) {
+		w := int(t.Draw(SScen, uint64(n)))
+		sc.FlagWO[w] = true
+		// make it primary of the first height or of one of the next ones
+		off := uint32(t.Draw(SScen, 3))
+		sc.Start = uint32(w) + uint32(n)*uint32(t.Range(SScen, 0, 3))
+		if sc.Start >= 1+off {
+			sc.Start -= 1 + off
+		} else {
+			sc.Start += uint32(n) - 1 - off
+		}
+		if sc.AMEV > 0 {
+			sc.AMEV = int64(sc.Start) + 1 + t.Range(SScen, 0, int64(sc.Heights))
+		}
+	}
+	sc.GST = -1
+	sc.DropPM = pick(t, SScen, uint64(0), 10, 50, 150)
+	sc.DupPM = pick(t, SScen, uint64(0), 10, 50)
+	sc.Partitions = t.Chance(SScen, 1, 3)
+	sc.StallPM = pick(t, SScen, uint64(0), 2, 10)
+	sc.ResetDelay = pick(t, SScen, int64(0), int64(sc.LatBase), int64(sc.TPB)/2)
+	sc.MapOrder = int(t.Draw(SScen, 3))
+	sc.TxMissing = t.Chance(SScen, 1, 2)
+	if t.Chance(SScen, 1, 3) {
+		sc.MaxTPB = sc.TPB * time.Duration(pick(t, SScen, 2, 3, 8, 1))
 	}
 	return sc
 }
